@@ -17,8 +17,22 @@
        outcome     what the receiver's next consumer returns:
                      [kind |-> "nil"] | [kind |-> "perm"]   consumererror.NewPermanent(plain error)
                      [kind |-> "trans"]                     plain error
-                     [kind |-> "status", code, ri]          error carrying an explicit gRPC status;
-                                                            ri = RetryInfo delay in ms, -1 = no RetryInfo
+                     [kind |-> "status", code, ri, wrap]    error carrying an explicit gRPC status ANYWHERE IN
+                                                            ITS CHAIN; ri = RetryInfo delay in ms, -1 = no
+                                                            RetryInfo; wrap = how the status error is wrapped:
+                                                            "no"   status.Error(...) itself
+                                                            "perm" consumererror.NewPermanent(status error)
+                                                                   (what otlphttpexporter / otlpexporter return
+                                                                   for a non-retryable answer of THEIR backend
+                                                                   in a chained deployment)
+                                                            "fmt"  fmt.Errorf("...: %w", status error)
+   Spec-level table for the consumer error: an error that carries an explicit status anywhere in its chain is
+   reported with that status, whatever wraps it ("a consumer error carrying an explicit gRPC status is
+   reported with that status"); only an error WITHOUT a status is classified by its permanent marker ("any
+   OTHER permanent error ... any OTHER error").  One combination is left open, because the two halves of
+   the sentence pull in different directions: a PERMANENT wrapper around a status whose code is RETRYABLE
+   by the gRPC table (e.g. NewPermanent(UNAVAILABLE)).  There both answers are admitted: that status
+   itself, or any non-retryable failure status (SilentPermanentRetryable).
    An observation o is
        consumed    how often the next consumer was invoked for this request
        eq          the payload at the consumer equals the payload sent (sampled on concrete payloads)
@@ -71,10 +85,15 @@ Delivered(r, o) == Reaches(r) => (o.consumed = 1 /\ o.eq)
 
 (* "a consumer error carrying an explicit gRPC status is reported with that status": the gRPC status
    itself over gRPC (code and RetryInfo), the google.rpc.Status of the response body over HTTP. *)
+SilentPermanentRetryable(r) ==
+    HasStatus(r) /\ r.outcome.wrap = "perm" /\ GrpcRetryable(r.outcome.code, r.outcome.ri # NoRI)
+PassedThrough(r, o) ==
+    /\ o.resp.code = r.outcome.code
+    /\ o.resp.kind = "grpc" => o.resp.ri = r.outcome.ri
 StatusPassthrough(r, o) ==
     (Reaches(r) /\ HasStatus(r)) =>
-        /\ o.resp.code = r.outcome.code
-        /\ o.resp.kind = "grpc" => o.resp.ri = r.outcome.ri
+        \/ PassedThrough(r, o)
+        \/ SilentPermanentRetryable(r) /\ WireFailure(o) /\ ~WireRetryable(o)
 
 (* "any other permanent error with a non-retryable status and any other error with a retryable one,
    and the sending exporter classifies what it receives as permanent or retryable exactly as the
@@ -93,7 +112,8 @@ OutcomeRetryable(r) ==
 PermanentIffNonRetryable(r, o) ==
     /\ (Reaches(r) /\ r.outcome.kind # "nil") =>
           /\ WireFailure(o)
-          /\ ~SilentResourceExhaustedHttp(r) => (WireRetryable(o) <=> OutcomeRetryable(r))
+          /\ (~SilentResourceExhaustedHttp(r) /\ ~SilentPermanentRetryable(r))
+                => (WireRetryable(o) <=> OutcomeRetryable(r))
     /\ (ByExporter(r) /\ WireFailure(o)) =>
           /\ o.cls.class = "permanent" <=> ~WireRetryable(o)
           /\ Retrying(o) <=> WireRetryable(o)
@@ -110,7 +130,7 @@ ThrottleHonoured(r, o) ==
     /\ (ByExporter(r) /\ o.cls.class = "throttle") =>
           (WireFailure(o) /\ WireRetryable(o) /\ WireDelay(o) # NoRI /\ o.cls.delay = WireDelay(o))
     /\ (ByExporter(r) /\ Reaches(r) /\ HasStatus(r) /\ r.outcome.ri > 0
-          /\ GrpcRetryable(r.outcome.code, TRUE)) =>
+          /\ GrpcRetryable(r.outcome.code, TRUE) /\ ~SilentPermanentRetryable(r)) =>
           /\ o.cls.class = "throttle"
           /\ IF r.transport = "grpc" THEN o.cls.delay = r.outcome.ri
              ELSE o.cls.delay \in { (r.outcome.ri \div 1000) * 1000, ((r.outcome.ri + 999) \div 1000) * 1000 }
